@@ -40,7 +40,7 @@ pub fn run(ctx: &Ctx, rep: &mut Report) {
         let mut rng = ctx.rng_for(uni);
         rep.begin_universe(uni);
         let mut u = U::new();
-        let owner = u.principal();
+        let mut owner = u.principal();
         // in a quarter of the universes one address holds both roles
         let collector = if rng.chance(1, 4) { owner.clone() } else { u.principal() };
         let stranger = u.principal();
@@ -99,6 +99,16 @@ pub fn run(ctx: &Ctx, rep: &mut Report) {
             if rng.chance(1, 25) && u.upgrade_and_migrate(&gs).is_ok() {
                 rep.step("the gas service is upgraded to the same code and migrated".into());
                 rep.count("upgrade-and-migrate");
+            }
+            // the ownership changes hands now and then; the collector named at construction stays
+            if rng.chance(1, 25) {
+                let new_owner = u.principal();
+                let (g2, n2) = (gs.clone(), new_owner.clone());
+                u.setup(move |env| axelar_soroban_std::interfaces::OwnableClient::new(env, &g2).transfer_ownership(&n2));
+                u.skip_events();
+                rep.step("the ownership of the gas service is transferred".into());
+                rep.count("ownership-transferred");
+                owner = new_owner;
             }
             let op = *rng.pick(&OPS);
             let ti = rng.usize(3);
